@@ -176,21 +176,16 @@ def engine_edits(b, edits, author='Tester'):
         DocumentMapper.find_match_index = orig
 
 def canon_session(doc, din, ts=None):
-    """replace dates that do not occur in the input document by SESSION (revision marks and comments created by the run)"""
-    old = set()
-    def dates(nodes):
-        for n in nodes:
-            if n[0] in ('ins', 'del'): old.add(n[2][2]); dates(n[3])
-    for p in A.paras(din): dates(p['nodes'])
-    for c in din['comments']: old.add(c.get('date') or '')
+    """the dates of revision marks and comments created by the run (their ids do not occur in the loaded document) become SESSION"""
+    old_marks = mark_ids(din); old_c = {c['id'] for c in din['comments']}
     def fix(nodes):
         for n in nodes:
             if n[0] in ('ins', 'del'):
-                if n[2][2] not in old: n[2][2] = 'SESSION'
+                if n[2][0] not in old_marks: n[2][2] = 'SESSION'
                 fix(n[3])
     for p in A.paras(doc): fix(p['nodes'])
     for c in doc['comments']:
-        if (c.get('date') or '') not in old: c['date'] = 'SESSION'
+        if c['id'] not in old_c: c['date'] = 'SESSION'
     return doc
 
 def sx_edits_line(din, author, edits, oracle):
